@@ -33,6 +33,16 @@ theorem step_refines (s : Sim) (pc : UInt64) (wi : Nat) (q : PQ) (h : StepPre s 
       Frame s s' wi ∧ s'.FieldsOK :=
   exec_refines s pc wi q h
 
+/-- the bound M ≤ 2^32 of `step_refines` is tight: one cell above it the uint64 product of `mul`
+    wraps before the reduction (x = y = 2^32 < M = 2^32 + 1: Go computes 0, arithmetic modulo M
+    gives 1) -/
+theorem mul_wraps_above_2_32 :
+    let s : Sim := { m := 4294967297, maxProcs := 1, maxCycles := 1, readLimit := 1, writeLimit := 1,
+                     mem := #[], legacy := false }
+    (4294967296 : UInt64) < s.m ∧ (s.mulF 4294967296 4294967296).toNat = 0 ∧
+    (4294967296 * 4294967296) % s.m.toNat = 1 := by
+  decide
+
 /-
   Bound. `StepPre` requires M ≤ 2^32. Above that the Go expression `(IRB.A * IRA.A) % s.m`
   of `mul` wraps in uint64 before the reduction, so MUL differs from the reference; such a
